@@ -53,6 +53,56 @@ int main(int argc, char** argv) {
       try { A.calculate_masses(); } catch (const Error&) { ++o.inconclusive; o.count("onshell-point-rejected"); continue; }
       if (A.get_problems().have_problem()) { ++o.inconclusive; o.count("onshell-point-problem"); continue; }
       const double amu_a = calculate_amu_1loop(A) + calculate_amu_2loop(A);
+      const double th0 = 0.5 * std::atan2(2 * std::fabs(A.get_mass_matrix_Sm()(0, 1)), std::fabs(A.get_mass_matrix_Sm()(0, 0) - A.get_mass_matrix_Sm()(1, 1)));   // smuon mixing angle
+      const bool well0 = std::fabs(ml[1] / me[1] - 1) > 0.1 && std::fabs(me[1] / ml[1] - 1) > 0.1 && th0 < 0.05 &&
+                         std::fabs(std::fabs(mu / m2) - 1) > 0.15 && std::fabs(std::fabs(m2 / mu) - 1) > 0.15 && std::fabs(std::fabs(m1 / mu) - 1) > 0.15 && std::fabs(std::fabs(mu / m1) - 1) > 0.15 &&
+                         std::fabs(std::fabs(m1 / m2) - 1) > 0.15 && std::fabs(std::fabs(m2 / m1) - 1) > 0.15;
+      // ---- setter-driven input without pole mixing matrices (what the C interface and an SLHA file without NMIX/SMUMIX provide): parameters and pole
+      // masses only; once on a fresh object and once on a long-lived object that went through the conversions of the earlier cases (a scan loop)
+      if (i % 2 == 0) {
+         auto fill = [&](MSSMNoFV_onshell& m) {
+            m.get_problems().clear();
+            m.set_TB(tb); m.set_Mu(mu * pm[0]); m.set_MassB(m1 * pm[1]); m.set_MassWB(m2 * pm[2]); m.set_MassG(A.get_MassG()); m.set_MA0(A.get_physical().MAh(1)); m.set_scale(A.get_scale());
+            for (int g = 0; g < 3; ++g) { m.set_ml2(g, g, A.get_ml2(g, g) * (g == 1 ? pm[3] : 1)); m.set_me2(g, g, A.get_me2(g, g) * (g == 1 ? pm[4] : 1)); m.set_mq2(g, g, A.get_mq2(g, g)); m.set_mu2(g, g, A.get_mu2(g, g)); m.set_md2(g, g, A.get_md2(g, g));
+               m.set_Ae(g, g, A.get_Ae(g, g)); m.set_Au(g, g, A.get_Au(g, g)); m.set_Ad(g, g, A.get_Ad(g, g)); }
+            m.get_physical().MSvmL = A.get_physical().MSvmL; m.get_physical().MSm = A.get_physical().MSm; m.get_physical().MChi = A.get_physical().MChi; m.get_physical().MCha = A.get_physical().MCha;
+         };
+         struct Res { bool thrown = false, warn = false, problem = false; double v[8] = {0, 0, 0, 0, 0, 0, 0, 0}; };
+         auto run = [&](MSSMNoFV_onshell& m) { Res q; fill(m); try { m.convert_to_onshell(prec, 1000); q.warn = m.get_problems().have_warning(); q.problem = m.get_problems().have_problem();
+               q.v[0] = m.get_Mu(); q.v[1] = m.get_MassB(); q.v[2] = m.get_MassWB(); q.v[3] = m.get_ml2(1, 1); q.v[4] = m.get_me2(1, 1); q.v[5] = calculate_amu_1loop(m); q.v[6] = calculate_amu_2loop(m); q.v[7] = m.get_MSm(0); }
+            catch (const Error&) { q.thrown = true; } return q; };
+         MSSMNoFV_onshell fresh; const Res qf = run(fresh);
+         static thread_local MSSMNoFV_onshell longlived; const Res ql = run(longlived);
+         // the conversion is an iteration that stops once within the requested precision, so its result depends (within that precision) on the state it starts
+         // from; compared where it converged on both objects and the point is well-conditioned, on the tolerance of the recovery clause
+         const double rtolh = 1e-6 + 1000 * prec / std::min({std::fabs(mu), std::fabs(m1), std::fabs(m2), ml[1], me[1]});
+         J w = c; w.str("input", "setters, pole masses without mixing matrices").i("fresh_thrown", qf.thrown).i("fresh_warning", qf.warn).i("reused_thrown", ql.thrown).i("reused_warning", ql.warn).arr("fresh", qf.v, qf.v + 8).arr("reused", ql.v, ql.v + 8);
+         // (whether a borderline point is rejected - e.g. a stau tachyon met in the first iteration - depends on the Yukawa couplings the object carries from before:
+         //  seen 3 times in 50 000; the property quantifies over accepted inputs, so this is counted, not judged)
+         if (qf.thrown != ql.thrown) o.count("no-pole-mixing: rejected on one of fresh/re-used object only (reported)");
+         else if (!qf.thrown && !qf.warn && !ql.warn && !qf.problem && !ql.problem && well0) {
+            double e = 0; for (int k = 0; k < 3; ++k) e = std::max(e, std::fabs(qf.v[k] / ql.v[k] - 1)); for (int k = 3; k < 5; ++k) e = std::max(e, 0.5 * std::fabs(qf.v[k] / ql.v[k] - 1));
+            w.d("relative_parameter_difference", e).d("tolerance", rtolh);
+            o.cell("no-pole-mixing|re-used-object=fresh-object|parameters|prec" + vh::decade(prec), e / rtolh, &w);
+            if (!(e <= rtolh)) o.fail("C05:re-used-object-differs", "convert_to_onshell on an object that went through earlier conversions fits other parameters than on a fresh object with the same input: relative " + vh::num(e), w);
+         } else o.count("no-pole-mixing: fresh/re-used comparison not applicable (warning, problem or ill-conditioned)");
+         if (!qf.thrown && !qf.warn && !qf.problem) {
+            // the clauses of the property on this path: the bino-like state is the one the fitted mixing identifies
+            const auto& ph = fresh.get_physical();
+            int ib; fresh.get_ZN().col(0).cwiseAbs2().maxCoeff(&ib);
+            // without pole mixing matrices the input does not say which pole mass belongs to the bino-like state (with |M1| ~ |M2| the guess and the solution order
+            // them differently): demanded is that the bino-like state sits on one of the input pole masses
+            double dchi = 1e300; for (int j = 0; j < 4; ++j) dchi = std::min(dchi, std::fabs(fresh.get_MChi(ib) - ph.MChi(j)));
+            const double dcha = (fresh.get_MCha() - ph.MCha).abs().maxCoeff(), dsv = std::fabs(fresh.get_MSvmL() - ph.MSvmL);
+            const double tol = prec * 1.0001 + 1e-13 * std::max(std::fabs(mu), std::fabs(m2));
+            w.d("d_chargino", dcha).d("d_bino", dchi).d("d_sneutrino", dsv);
+            o.cell("no-pole-mixing|pole:charginos", dcha / prec, &w); o.cell("no-pole-mixing|pole:bino-like-neutralino", dchi / prec, &w); o.cell("no-pole-mixing|pole:muon-sneutrino", dsv / prec, &w);
+            if (!(dcha <= tol)) o.fail("C05:no-pole-mixing:pole:charginos", "chargino pole masses missed by " + vh::num(dcha) + " GeV without warning (input without pole mixing matrices)", w);
+            if (!(dchi <= tol)) o.fail("C05:no-pole-mixing:pole:bino-like-neutralino", "bino-like neutralino pole mass missed by " + vh::num(dchi) + " GeV without warning (input without pole mixing matrices)", w);
+            if (!(dsv <= tol)) o.fail("C05:no-pole-mixing:pole:muon-sneutrino", "muon-sneutrino pole mass missed by " + vh::num(dsv) + " GeV without warning (input without pole mixing matrices)", w);
+            // and the fitted parameters are those of the original point wherever the path with pole mixing matrices recovers them (compared below through B)
+         } else o.count(std::string("no-pole-mixing: ") + (qf.thrown ? "rejected" : "warned"));
+      }
       // SLHA-type model: A's pole spectrum (masses and mixings) with perturbed guesses of the five fitted parameters
       MSSMNoFV_onshell B(A); B.get_problems().clear();
       B.set_Mu(mu * pm[0]); B.set_MassB(m1 * pm[1]); B.set_MassWB(m2 * pm[2]); B.set_ml2(1, 1, ml[1] * ml[1] * pm[3]); B.set_me2(1, 1, me[1] * me[1] * pm[4]);
